@@ -243,8 +243,47 @@ def register(R):
                    result=P.val('result', 'bool'), props=('C17',)))
 
 
+def register_named_children(R):
+    """ComposedNode.ayns.named_children called the way the package calls it (no arguments): EVERY (key, child) entry of the
+    child view, in order - two keys bound to one and the same node object (a YAML alias, a value the loader shares) are two
+    entries.  Container evaluation (dict.py / list.py on_evaluate_impl), filter_nodes and map_nodes iterate this."""
+    comp = lambda: P.node('self', 'ComposedNode')
+
+    def lists(c):
+        h = c.post
+        return h.l(c.x['yields']), h.l(c.x['yields0']), h.l(c.x['yields1'])
+
+    def inv(c, L):
+        m = S.children(L.entry_heap, c.ref('self'))
+        y, y0, y1 = L.heap.l(c.x['yields']), L.heap.l(c.x['yields0']), L.heap.l(c.x['yields1'])
+        j = z3.Int('!nj')
+        return [('count', z3.And(y.len == L.i, y0.len == L.i, y1.len == L.i)),
+                ('entries', S.FA([j], z3.Implies(z3.And(0 <= j, j < L.i), z3.And(y0.get(j) == z3.Select(m.keyat, j),
+                                                                                y1.get(j) == z3.Select(m.val, z3.Select(m.keyat, j)))), patterns=[y0.get(j)])),
+                ('children-untouched', S.children(L.heap, c.ref('self')).eq(m))]
+
+    def ens(c):
+        m = S.children(c.pre, c.ref('self'))
+        y, y0, y1 = lists(c)
+        j = z3.Int('!nj')
+        return [('C01+C11+C17.one-entry-per-key-also-for-a-node-bound-under-several-keys', z3.And(y.len == m.len, y0.len == m.len, y1.len == m.len)),
+                ('C01+C11+C17.entries-are-the-keys-and-children-in-order',
+                 S.FA([j], z3.Implies(z3.And(0 <= j, j < m.len), z3.And(y0.get(j) == z3.Select(m.keyat, j), y1.get(j) == z3.Select(m.val, z3.Select(m.keyat, j)))),
+                      patterns=[y0.get(j)]))]
+
+    R.add(Contract(C + 'ComposedNode.ayns.named_children', [comp()], name='default-arguments',
+                   requires=lambda c: [('len', S.children(c.pre, c.ref('self')).len >= 0), ('children-dict', z3.And(is_ref(c.pre.get('_children', c.ref('self'))), chref(c.pre, c.ref('self')) > 0))],
+                   pure=True, ensures=[('named_children', ens)], props=('C01', 'C11', 'C17', 'C10', 'C04'),
+                   loops={0: Loop(inv, mod_locals=['name', 'child'], mod_fields=[],
+                                  mod_at=lambda c, L: [(f, [c.x['yields'], c.x['yields0'], c.x['yields1']]) for f in ('$llen', '$litem')] +
+                                                      [('$set', [r_of(L.loc['memo'].t)])])},
+                   opts={'bind_partial': True, 'verify_only': True, 'no_search': True},
+                   note='generator; its yielded pairs are recorded component-wise in two ghost lists'))
+
+
 def _reg_all(R):
     register(R)
+    register_named_children(R)
     register2(R)
     register3(R)
     register4(R)
